@@ -5,7 +5,7 @@ cd "$(dirname "$0")/.."
 N="${1:-4}"
 OUT="${SELFTEST_OUT:-mutants/RESULTS.md}"
 D=$(mktemp -d)
-ls mutants | grep '^C[0-9]' | sort | xargs -P "$N" -I{} sh -c 'SELFTEST_OUT="'"$D"'/{}.md" VERIF_JOBS="${VERIF_JOBS:-4}" tools/selftest.sh {} > "'"$D"'/{}.log" 2>&1'
+{ if [ -n "$SELFTEST_PIDS" ]; then echo $SELFTEST_PIDS | tr ' ' '\n'; else ls mutants | grep '^C[0-9]' | sort; fi; } | xargs -P "$N" -I{} sh -c 'SELFTEST_OUT="'"$D"'/{}.md" VERIF_JOBS="${VERIF_JOBS:-4}" tools/selftest.sh {} > "'"$D"'/{}.log" 2>&1'
 { echo "# Sensitivity results (tools/selftest.sh, quick tier, seed ${VERIF_SEED:-1})"; echo; echo "| property | mutant | result |"; echo "|---|---|---|";
   for f in $(ls "$D"/*.md | sort); do grep '^| C' "$f"; done; } > "$OUT"
 grep -c "| caught |" "$OUT"; grep -v "| caught |" "$OUT" | grep '^| C'
